@@ -30,7 +30,7 @@ import pickle
 import shutil
 import tempfile
 
-from harness.common import exc_name, jdump
+from harness.common import CaseTimeout, exc_name, jdump
 
 PID = "C18"
 TITLE = "Cache replays exactly the stored flow and never serves a truncated one"
@@ -173,6 +173,9 @@ def enc(code, vk):
         return code
     if vk == "ctx":
         return (code, {"code": code, "s": str(code)})
+    if vk == "mut":
+        # a mutable value with a mutable context: the map elements change it in place (see _Map.run)
+        return [code, {"code": code, "n": {"s": str(code)}}]
     if vk == "falsy" and code in _SPECIAL:
         return copy.deepcopy(_SPECIAL[code])
     r = code % 4
@@ -199,6 +202,8 @@ def dec(val, vk):
             cand = int(val[1:])
         elif type(val) is list and val and type(val[0]) is int:
             cand = val[0]
+            if vk == "mut" and (type(val[1]) is not dict or val[1].get("code") != cand):
+                cand = None
         if cand is not None and type(cand) is int and repr(enc(cand, vk)) == repr(val):
             return cand
     except Exception:
@@ -214,49 +219,98 @@ class ElBoom(Exception):
     pass
 
 
+class BaseBoom(BaseException):
+    """an exception that is not an Exception (like KeyboardInterrupt, SystemExit, GeneratorExit)"""
+
+
+_RAISE_KINDS = ("exc", "kbd", "sysexit", "base", "genexit")
+
+
+def _boom(kind, who):
+    """the exception a source (who='s') or an element raises: rk = exc (an Exception subclass) | kbd
+    (KeyboardInterrupt) | sysexit (SystemExit) | base (a BaseException subclass) | genexit (GeneratorExit)"""
+    if kind == "kbd":
+        return KeyboardInterrupt()
+    if kind == "sysexit":
+        return SystemExit(3)
+    if kind == "base":
+        return BaseBoom()
+    if kind == "genexit":
+        return GeneratorExit()
+    return SrcBoom() if who == "s" else ElBoom()
+
+
+def _boom_name(kind, who):
+    return {"kbd": "Other:KeyboardInterrupt", "sysexit": "Other:SystemExit", "base": "Other:BaseBoom",
+            "genexit": "Other:GeneratorExit"}.get(kind, "Other:SrcBoom" if who == "s" else "Other:ElBoom")
+
+
 class _Src(object):
     """instrumented source: a generator function; logs every resumption of its body"""
 
     def __init__(self, spec, vk, log):
         self.vals, self.raise_at, self.vk, self.log = spec["vals"], spec["raise"], vk, log
+        self.rk = spec.get("rk", "exc")
 
     def renew(self, spec, log):
         """the same object in a later run: new values, new log"""
         self.vals, self.raise_at, self.log = spec["vals"], spec["raise"], log
+        self.rk = spec.get("rk", "exc")
 
     def __call__(self):
         i = 0
         for i, c in enumerate(self.vals):
             if i == self.raise_at:
                 self.log.append("s!%d" % i)
-                raise SrcBoom()
+                raise _boom(self.rk, "s")
             self.log.append("s%d" % i)
             yield enc(c, self.vk)
         if self.raise_at == len(self.vals):
             self.log.append("s!%d" % len(self.vals))
-            raise SrcBoom()
+            raise _boom(self.rk, "s")
         self.log.append("s$")
 
 
 class _Map(object):
-    """instrumented element with a generator `run`: code v -> 10 v + a; raises on its raise_at-th value"""
+    """instrumented element: code v -> 10 v + a; raises on its raise_at-th value.
+    `run` is a generator (lazy) - or, with spec["eager"], an ordinary method that consumes its input when it is
+    called (when the Sequence is put together) and returns an iterator over the results.
+    For the value kind "mut" the element changes the value it received *in place* and yields the same object."""
 
     def __init__(self, j, spec, vk, log):
         self.j, self.a, self.raise_at, self.vk, self.log = j, spec["a"], spec["raise"], vk, log
+        self.rk = spec.get("rk", "exc")
+        if spec.get("eager"):
+            self.run = self._run_eager
 
     def renew(self, spec, log):
         self.raise_at, self.log = spec["raise"], log
+        self.rk = spec.get("rk", "exc")
+
+    def _apply(self, val):
+        c = dec(val, self.vk)
+        if type(c) is not int:
+            return ("bad", val)
+        if self.vk == "mut":
+            new = 10 * c + self.a
+            val[0] = new
+            val[1]["code"] = new
+            val[1]["n"]["s"] = str(new)
+            return val
+        return enc(10 * c + self.a, self.vk)
 
     def run(self, flow):
         n = 0
         for val in flow:
             if n == self.raise_at:
                 self.log.append("m!%d:%d" % (self.j, n))
-                raise ElBoom()
+                raise _boom(self.rk, "m")
             self.log.append("m%d:%d" % (self.j, n))
             n += 1
-            c = dec(val, self.vk)
-            yield enc(10 * c + self.a, self.vk) if type(c) is int else ("bad", val)
+            yield self._apply(val)
+
+    def _run_eager(self, flow):
+        return iter(list(_Map.run(self, flow)))
 
 
 # ----------------------------------------------------------------------------------------
@@ -337,7 +391,8 @@ def _shape_key(op):
         return [{k: v for k, v in e.items() if k != "raise"} for e in els]
     if op["op"] == "splitrun":
         return jdump(["split", strip(op["outer"]), strip(op["branch"]), op["bufsize"], bool(op.get("bare")), op.get("nest"), op.get("wrap")])
-    return jdump(["run", strip(op["els"]), op.get("mode", "source"), op.get("nest")])
+    return jdump(["run", strip(op["els"]), op.get("mode", "source"), op.get("nest"),
+                  op["take"] if op.get("via") == "slice" else None])
 
 
 def _construct(op, names, vk, log, tmpl):
@@ -365,10 +420,15 @@ def _construct(op, names, vk, log, tmpl):
                 member = lena.core.Split([(member,)])
             else:
                 raise ValueError(kind)
-        sp = lena.core.Split([member], bufsize=op["bufsize"])
+        if op.get("default_bufsize"):
+            sp = lena.core.Split([member])              # bufsize=1000
+        else:
+            sp = lena.core.Split([member], bufsize=op["bufsize"])
         source = lena.core.Source(src, *(outer + [sp]))
         return (lambda: source()), caches, src, maps
     els = _mk_els(op["els"], 0, names, vk, log, caches, tmpl, maps)
+    if op.get("via") == "slice" and op["take"] is not None:
+        els.append(lena.flow.Slice(op["take"]))         # downstream stops consuming: a real element ends the flow
     mode = op.get("mode", "source")
     if mode in ("bare_hoist", "bare_meta"):
         el = els[0]
@@ -475,22 +535,31 @@ def _run_op(op, names, vk, leaked, tmpl=None, built=None):
             # the file every Cache element of the pipeline uses (a private attribute read by the harness)
             ob["ids"] = [names.index(c._filename) if c._filename in names else "?" + os.path.basename(c._filename)
                          for c in caches]
-    except Exception as e:      # building a pipeline runs no generator body: nothing of ours can raise here
+    except CaseTimeout:
+        raise
+    except BaseException as e:  # building a pipeline runs no generator body - unless an element's run is eager
         ob["end"] = "build:" + exc_name(e)
         ob["ev"] = log
+        ob.setdefault("ids", [names.index(c._filename) if c._filename in names else "?" for c in caches])
+        gc.collect()
         return ob
     take = op["take"]
+    via_slice = op.get("via") == "slice" and take is not None
     held = None
     try:
-        while take is None or len(ob["out"]) < take:
+        while via_slice or take is None or len(ob["out"]) < take:
             v = next(it)
             ob["out"].append(dec(v, vk))
             ob["snaps"].append(_bits(names))
         ob["end"] = "stopped"
         held = it
     except StopIteration:
-        ob["end"] = "exhausted"
-    except Exception as e:
+        # with a Slice(take) as the last element the pipeline ends by itself after `take` values: the generators
+        # below the Slice were stopped, not exhausted
+        ob["end"] = "stopped" if via_slice and len(ob["out"]) == take else "exhausted"
+    except CaseTimeout:
+        raise
+    except BaseException as e:
         ob["end"] = exc_name(e)
         held = (it, e)      # the traceback refers to the frames of the suspended generators
     it = None
@@ -531,6 +600,15 @@ def run_impl(case):
         for op in case["hist"]:
             if op["op"] in ("run", "splitrun"):
                 ob = _run_op(op, names, vk, leaked, tmpl, built)
+            elif op["op"] == "plant":
+                # a file that no run of the history made: an empty cache file, or the temporary file a killed
+                # process left behind (no `finally` ran)
+                ob = {}
+                if op["what"] == "empty":
+                    open(names[op["c"]], "wb").close()
+                else:
+                    with open(names[op["c"]] + ".tmp", "wb") as f:
+                        f.write(b"\x80\x02K\x07.garbage")
             elif op["op"] == "bufrule":
                 ob = _bufrule(op, d)
             elif op["op"] == "dropdir":
@@ -589,7 +667,7 @@ def _ev_j(ev):
 def _src_flow(src):
     vals, r = list(src["vals"]), src["raise"]
     if r is not None and r <= len(vals):
-        return vals[:r], "Other:SrcBoom"
+        return vals[:r], _boom_name(src.get("rk", "exc"), "s")
     return vals, None
 
 
@@ -597,7 +675,7 @@ def _map_flow(el, flow):
     vals, exc = flow
     r = el["raise"]
     if r is not None and r < len(vals):
-        return [10 * v + el["a"] for v in vals[:r]], "Other:ElBoom"
+        return [10 * v + el["a"] for v in vals[:r]], _boom_name(el.get("rk", "exc"), "m")
     return [10 * v + el["a"] for v in vals], exc
 
 
@@ -615,24 +693,6 @@ def _pipe_flow(stored, src, els):
     return flow, inputs, replay
 
 
-_SPLIT_RULE = []
-
-
-def split_patched():
-    """which buffer-size rule Split.__init__ of the tree under test has (notes/C18_defect_2.md): does a Cache in a
-    sequence branch make Split materialise the whole flow?  (a private attribute read by the harness)"""
-    if not _SPLIT_RULE:
-        import lena.core
-        import lena.flow
-        d = tempfile.mkdtemp(prefix="c18-probe-", dir=_tmp_base())
-        try:
-            sp = lena.core.Split([lena.core.Sequence(lena.flow.Cache(os.path.join(d, "p.pkl")))], bufsize=2)
-            _SPLIT_RULE.append(getattr(sp, "_bufsize", 2) is None)
-        finally:
-            shutil.rmtree(d, ignore_errors=True)
-    return _SPLIT_RULE[0]
-
-
 def _resolved(op, ids, part="els", skip=0):
     """the pipeline of a run with every templated cache replaced by the cache id it was observed (or predicted) to use,
     and without the SetContext elements (`skip` caches precede this part)"""
@@ -648,10 +708,13 @@ def _resolved(op, ids, part="els", skip=0):
     return out
 
 
+def _has_eager(case):
+    return any(e.get("eager") for op in case["hist"] for e in op.get("els", []))
+
+
 def model_requests(case):
-    if any(op["op"] == "splitrun" for op in case["hist"]):
-        return [dict(case, split_patched=split_patched())]
-    return [case]
+    # pipelines with an element whose `run` is not lazy are outside the model (ASSUMPTIONS): oracle only
+    return [] if _has_eager(case) else [case]
 
 
 def compare(case, res, replies):
@@ -712,6 +775,31 @@ def oracle(case, res):
                 return f"cache-name: {where}: a Cache uses a file outside the names of the case: {ob.get('ids')}"
             els = _resolved(op, ob.get("ids", []))
             (vals, exc), inputs, replay = _pipe_flow(stored, op["src"], els)
+            hoisted = op.get("mode", "source") in ("hoist", "hoist_src", "bare_hoist", "bare_meta")
+            eager = [j for j, e in enumerate(els) if e.get("eager") and not (hoisted and replay is not None and j < replay)]
+            if eager:
+                # an element whose `run` is an ordinary method consumes its input when the pipeline is put together:
+                # everything up to the last such element behaves like the outer pipeline of a Split (pulled ahead,
+                # its exceptions arrive at construction time); the laziness the no-pull clause relies on is absent
+                msg, maybe_dropped = _two_phase(where, stored, op["src"], els[:eager[-1] + 1], els[eager[-1] + 1:], ob,
+                                                op["take"], check_outer_pull=False)
+                if msg:
+                    return msg
+                if hoisted and replay is not None:
+                    for ev in ob["ev"]:
+                        if _ev_src(ev) or _ev_j(ev) < replay:
+                            return (f"upstream-pulled: {where}: cache {els[replay]['c']} is filled and hoisted, but the run "
+                                    f"pulled from upstream of it (event {ev})")
+                for c in range(nc):
+                    f = ob["fs"][c]["final"]
+                    if f is None and c in maybe_dropped:
+                        stored[c] = None
+                    if f != stored[c]:
+                        return (f"cache-content: after {where} the file of cache {c} holds {f}, but the complete run that "
+                                f"stored it saw {stored[c]}")
+                continue
+            if ob["end"].startswith("build:"):
+                return f"build-failed: {where}: putting the pipeline together raised {ob['end'][6:]}"
             k = op["take"]
             if k is not None and k <= len(vals):
                 exp_out, exp_end = vals[:k], "stopped"
@@ -746,41 +834,16 @@ def oracle(case, res):
             # earlier values were yielded.  The branch is a pipeline on the values of the outer flow.
             if any(type(c) is not int for c in ob.get("ids", [])):
                 return f"cache-name: {where}: a Cache uses a file outside the names of the case: {ob.get('ids')}"
+            if ob["end"].startswith("build:"):
+                return f"build-failed: {where}: putting the pipeline together raised {ob['end'][6:]}"
             outer = _resolved(op, ob.get("ids", []), "outer")
             branch = _resolved(op, ob.get("ids", []), "branch", sum(1 for e in outer if e["k"] == "cache"))
-            m = len(outer)
-            (o_vals, o_exc), o_inputs, o_replay = _pipe_flow(stored, op["src"], outer)
-            (vals, exc), b_inputs, b_replay = _pipe_flow(stored, {"vals": o_vals, "raise": None}, branch)
-            for ev in ob["ev"]:
-                if o_replay is not None and (_ev_src(ev) or _ev_j(ev) < o_replay):
-                    return (f"upstream-pulled: {where}: cache {outer[o_replay]['c']} is filled, but the run pulled "
-                            f"from upstream of it (event {ev})")
-                if b_replay is not None and not _ev_src(ev) and m <= _ev_j(ev) < m + b_replay:
-                    return (f"upstream-ran: {where}: cache {branch[b_replay]['c']} (branch element {b_replay}) is "
-                            f"filled, but branch element {_ev_j(ev) - m} upstream of it processed a value")
-            if ob["out"] != vals[:len(ob["out"])]:
-                return (f"flow-altered: {where}: the flow through the pipeline is {vals}, the run yielded {ob['out']} "
-                        f"(end {ob['end']})")
-            k = op["take"]
-            if ob["end"] == "exhausted":
-                if exc is not None or o_exc is not None or ob["out"] != vals:
-                    return (f"end-differs: {where}: the run ended normally after {ob['out']}, the flow is {vals} "
-                            f"ending with {exc or o_exc}")
-                for c, fl in list(o_inputs.items()) + list(b_inputs.items()):
-                    stored[c] = list(fl[0])
-            else:
-                if ob["end"] == "stopped":
-                    if k is None or len(ob["out"]) != k:
-                        return f"end-differs: {where}: the consumer was stopped after {len(ob['out'])} values, take={k}"
-                elif ob["end"] not in (exc, o_exc):
-                    return (f"end-differs: {where}: the run ended with {ob['end']}; the flow {vals} ends with {exc} "
-                            f"(before the Split: {o_exc})")
-                maybe_dropped = {c for c in list(o_inputs) + list(b_inputs) if stored[c] is not None}
-                if o_exc is None:
-                    # the outer pipeline may have been pulled to its normal end: a complete run through its caches
-                    for c, fl in o_inputs.items():
-                        if ob["fs"][c]["final"] == list(fl[0]):
-                            stored[c] = list(fl[0])
+            msg, maybe_dropped = _two_phase(where, stored, op["src"], outer, branch, ob, op["take"])
+            if msg:
+                return msg
+        elif op["op"] == "plant":
+            if op["what"] == "empty":
+                stored[op["c"]] = []          # somebody else's (empty) cache: it is the stored flow from now on
         elif op["op"] == "bufrule":
             # a Sequence member is run once per buffer: a Cache anywhere inside it must get the whole flow
             if op["bufsize"] is not None and any(_tree_has_cache(t) for t in op["members"]) and not ob["none"]:
@@ -812,14 +875,58 @@ def oracle(case, res):
     return None
 
 
+def _two_phase(where, stored, src, outer, branch, ob, k, check_outer_pull=True):
+    """the statement for a pipeline whose first part (`outer`) is pulled ahead of what the second part yields;
+    updates `stored`, returns (failure message or None, caches an interrupted recomputation may have dropped)"""
+    m = len(outer)
+    end = ob["end"][6:] if ob["end"].startswith("build:") else ob["end"]
+    (o_vals, o_exc), o_inputs, o_replay = _pipe_flow(stored, src, outer)
+    (vals, exc), b_inputs, b_replay = _pipe_flow(stored, {"vals": o_vals, "raise": None}, branch)
+    for ev in ob["ev"]:
+        if check_outer_pull and o_replay is not None and (_ev_src(ev) or _ev_j(ev) < o_replay):
+            return (f"upstream-pulled: {where}: cache {outer[o_replay]['c']} is filled, but the run pulled "
+                    f"from upstream of it (event {ev})"), set()
+        if b_replay is not None and not _ev_src(ev) and m <= _ev_j(ev) < m + b_replay:
+            return (f"upstream-ran: {where}: cache {branch[b_replay]['c']} (element {m + b_replay}) is "
+                    f"filled, but element {_ev_j(ev)} upstream of it processed a value"), set()
+    if ob["out"] != vals[:len(ob["out"])]:
+        return (f"flow-altered: {where}: the flow through the pipeline is {vals}, the run yielded {ob['out']} "
+                f"(end {ob['end']})"), set()
+    if end == "exhausted":
+        if exc is not None or o_exc is not None or ob["out"] != vals:
+            return (f"end-differs: {where}: the run ended normally after {ob['out']}, the flow is {vals} "
+                    f"ending with {exc or o_exc}"), set()
+        for c, fl in list(o_inputs.items()) + list(b_inputs.items()):
+            stored[c] = list(fl[0])
+        return None, set()
+    if end == "stopped":
+        if k is None or len(ob["out"]) != k:
+            return f"end-differs: {where}: the consumer was stopped after {len(ob['out'])} values, take={k}", set()
+    elif end not in (exc, o_exc):
+        return (f"end-differs: {where}: the run ended with {ob['end']}; the flow {vals} ends with {exc} "
+                f"(first part: {o_exc})"), set()
+    maybe_dropped = {c for c in list(o_inputs) + list(b_inputs) if stored[c] is not None}
+    if o_exc is None:
+        # the first part may have been pulled to its normal end: a complete run through its caches
+        for c, fl in o_inputs.items():
+            if ob["fs"][c]["final"] == list(fl[0]):
+                stored[c] = list(fl[0])
+    return None, maybe_dropped
+
+
 def _show_el(e):
     if e["k"] == "map":
-        return "M%d%s" % (e["a"], "" if e["raise"] is None else "!%d" % e["raise"])
+        return "M%d%s%s%s" % (e["a"], "e" if e.get("eager") else "", "" if e["raise"] is None else "!%d" % e["raise"],
+                              "" if e.get("rk", "exc") == "exc" else "(" + e["rk"] + ")")
     if e["k"] == "setctx":
         return "Set(k%d=%d)" % (e["key"], e["v"])
     if e["k"] == "tcache":
         return "C(t%d_{k%d})%s" % (e["t"], e["key"], "r" if e["rc"] else "")
     return "C%d%s" % (e["c"], "r" if e["rc"] else "")
+
+
+def _show_vals(vals):
+    return str(vals) if len(vals) <= 12 else f"[{vals[0]}, {vals[1]}, ... {len(vals)} values ... {vals[-1]}]"
 
 
 def _show_els(els):
@@ -836,8 +943,10 @@ def _show_op(op):
     if op["op"] != "run":
         return jdump(op)
     els = _show_els(op["els"])
-    return (f"run[{op.get('mode', 'source')} src={op['src']['vals']}"
+    return (f"run[{op.get('mode', 'source')} src={_show_vals(op['src']['vals'])}"
             + ("" if op["src"]["raise"] is None else f"!{op['src']['raise']}")
+            + ("" if op["src"].get("rk", "exc") == "exc" else f"({op['src']['rk']})")
+            + (" via=Slice" if op.get("via") == "slice" else "")
             + f" els={els} take={op['take']} {op.get('fin', 'close')}]")
 
 
@@ -966,14 +1075,19 @@ def C(c, rc=False):
     return {"k": "cache", "c": c, "rc": rc}
 
 
-def R(vals, els, take=None, fin="close", mode="source", sraise=None, nest=None):
-    return {"op": "run", "mode": mode, "src": {"vals": list(vals), "raise": sraise}, "els": [dict(e) for e in els],
-            "take": take, "fin": fin, "nest": nest}
+def R(vals, els, take=None, fin="close", mode="source", sraise=None, nest=None, rk="exc", via=None):
+    op = {"op": "run", "mode": mode, "src": {"vals": list(vals), "raise": sraise}, "els": [dict(e) for e in els],
+          "take": take, "fin": fin, "nest": nest}
+    if rk != "exc":
+        op["src"]["rk"] = rk
+    if via:
+        op["via"] = via
+    return op
 
 
 DROP = lambda c, rc=False: {"op": "drop", "c": c, "rc": rc}
 FINALIZE = {"op": "finalize"}
-_VKS = ("int", "ctx", "mixed", "falsy")
+_VKS = ("int", "ctx", "mixed", "falsy", "mut")
 
 
 def _vals(run, n):
@@ -1194,12 +1308,108 @@ def _family_n():
                                                          R(_vals(2, 2), outer + branch)]}
 
 
+PLANT = lambda c, what: {"op": "plant", "c": c, "what": what}
+
+
+def _family_k():
+    """exceptions that are not Exceptions: KeyboardInterrupt, SystemExit, a BaseException subclass, GeneratorExit
+    raised by the source or by an element at value k, closed or kept alive; then a complete run and a replay"""
+    for shape in _SHAPES1 + _SHAPES2[:2]:
+        nc = 1 + max(e["c"] for e in shape if e["k"] == "cache")
+        n = 3
+        for rk in _RAISE_KINDS[1:]:
+            firsts = []
+            for fin in ("close", "leak"):
+                for k in (0, 2, 3):
+                    firsts.append(R(_vals(0, n), shape, sraise=k, fin=fin, rk=rk))
+                for j, e in enumerate(shape):
+                    if e["k"] == "map":
+                        for k in (0, 2):
+                            els = [dict(x) for x in shape]
+                            els[j]["raise"], els[j]["rk"] = k, rk
+                            firsts.append(R(_vals(0, n), els, fin=fin))
+            for r1 in firsts:
+                for mode in ("source", "hoist"):
+                    yield {"nc": nc, "fam": "K", "hist": [dict(r1, mode=mode), R(_vals(1, 2), shape, mode=mode), FINALIZE,
+                                                          R(_vals(2, 3), shape, mode="sequence")]}
+    # the same in a member of Split
+    for rk in _RAISE_KINDS[1:]:
+        for bufsize in (None, 2):
+            for k in (0, 2, 3):
+                yield {"nc": 1, "fam": "K", "hist": [dict(SR(_vals(0, 3), [M(1)], [C(0), M(2)], bufsize, sraise=k), src={
+                    "vals": _vals(0, 3), "raise": k, "rk": rk}), SR(_vals(1, 2), [M(1)], [C(0), M(2)], bufsize)]}
+
+
+def _long(run, n):
+    return [run * 5000 + i for i in range(n)]
+
+
+def _family_l(quick):
+    """flows longer than the constants of the code and of the libraries below it: 63..70 values, 1000/1001/1100
+    (Split's default bufsize), and 3000 values (thorough)"""
+    lens = [63, 64, 65, 70, 1001] if quick else [63, 64, 65, 70, 129, 1000, 1001, 1100, 3000]
+    for n in lens:
+        for shape in ([C(0)], [M(1), C(0), M(2)]):
+            if n > 1001 and len(shape) > 1:
+                continue
+            yield {"nc": 1, "fam": "L", "hist": [R(_long(0, n), shape), R(_long(1, 3), shape, mode="hoist")]}
+            yield {"nc": 1, "fam": "L", "hist": [R(_long(0, n), shape, take=n, fin="leak"), R(_long(1, n), shape),
+                                                 FINALIZE, R(_long(2, 2), shape, mode="sequence")]}
+    # a member of Split with the *default* buffer size and a flow that does not fit into it
+    for n in ([1001] if quick else [1000, 1001, 1100, 2500]):
+        for wrap in (None, ["split"]):
+            op = dict(SR(_long(0, n), [], [C(0)], 1000), default_bufsize=True)
+            if wrap:
+                op["wrap"] = wrap
+            yield {"nc": 1, "fam": "L", "hist": [op, R(_long(1, 2), [C(0)])]}
+
+
+def _family_p():
+    """files no run of the history made: an empty file at the name of a cache, the temporary file of a killed process"""
+    shape = [M(1), C(0), M(2)]
+    for plant in (PLANT(0, "empty"), PLANT(0, "tmp")):
+        for r1 in _crash_variants(shape, 2):
+            for mode in ("source", "hoist"):
+                yield {"nc": 1, "fam": "P", "hist": [plant, dict(r1, mode=mode), REPR(0), R(_vals(1, 3), shape, mode=mode),
+                                                     DROP(0), plant, R(_vals(2, 2), shape)]}
+                yield {"nc": 1, "fam": "P", "hist": [dict(r1, mode=mode), plant, FINALIZE, R(_vals(1, 3), shape, mode=mode),
+                                                     R(_vals(2, 2), shape)]}
+
+
+def _family_v():
+    """downstream stops consuming: a real element (Slice(k)) ends the flow instead of the consumer"""
+    for shape in _SHAPES1 + _SHAPES2[:2]:
+        nc = 1 + max(e["c"] for e in shape if e["k"] == "cache")
+        for n in (0, 2, 3):
+            for k in range(n + 2):
+                for mode in ("source", "sequence", "hoist_src"):
+                    yield {"nc": nc, "fam": "V", "hist": [R(_vals(0, n), shape, take=k, mode=mode, via="slice"),
+                                                          R(_vals(1, 2), shape, take=1, mode=mode, via="slice"),
+                                                          R(_vals(2, 3), shape, mode=mode), R(_vals(3, 1), shape, take=2, via="slice")]}
+
+
+def _family_g():
+    """elements whose `run` is not lazy (oracle only, see ASSUMPTIONS): the no-pull clause is demanded of them only
+    when the Cache is hoisted"""
+    def E(a, r=None):
+        return dict(M(a, r), eager=True)
+    shapes = [[E(1), C(0)], [C(0), E(2), C(1)], [M(1), C(0), E(2)], [E(1), C(0), M(2)], [E(1), M(3), C(0), E(2), C(1)]]
+    for shape in shapes:
+        nc = 1 + max(e["c"] for e in shape if e["k"] == "cache")
+        for r1 in _crash_variants(shape, 2):
+            for mode in ("source", "sequence", "hoist", "hoist_src"):
+                yield {"nc": nc, "fam": "G", "hist": [dict(r1, mode=mode), R(_vals(1, 3), shape, mode=mode),
+                                                      R(_vals(2, 2), shape, mode=mode), DROP(0), R(_vals(3, 2), shape, mode=mode)]}
+
+
 def _random_case(rng):
     nc = rng.choice([1, 2, 2, 3])
     hist = []
     for i in range(rng.randint(1, 6)):
         r = rng.random()
-        if r < 0.12:
+        if r < 0.04:
+            hist.append(PLANT(rng.randrange(nc), rng.choice(["empty", "tmp"])))
+        elif r < 0.12:
             hist.append(DROP(rng.randrange(nc), rng.random() < 0.2))
         elif r < 0.22:
             hist.append(dict(FINALIZE))
@@ -1221,6 +1431,10 @@ def _random_case(rng):
                 ms = [e for e in els if e["k"] == "map"]
                 if ms:
                     rng.choice(ms)["raise"] = rng.randint(0, max(n - 1, 0))
+            rk = rng.choice(_RAISE_KINDS) if rng.random() < 0.4 else "exc"
+            for e in els:
+                if e["k"] == "map" and e["raise"] is not None and rk != "exc":
+                    e["rk"] = rk
             mode = rng.choice(MODES[:5])
             nest = None
             if len(els) == 1 and els[0]["k"] == "cache" and rng.random() < 0.3:
@@ -1239,13 +1453,19 @@ def _random_case(rng):
                             e["raise"] = None
                 hist.append(SR(vals, els[:cut], branch, bufsize, take=take, fin=rng.choice(["close", "leak"]),
                                sraise=sraise))
+                if rk != "exc":
+                    hist[-1]["src"]["rk"] = rk
                 continue
-            hist.append(R(vals, els, take=take, fin=rng.choice(["close", "leak"]), mode=mode, sraise=sraise, nest=nest))
+            via = "slice" if (take is not None and mode not in MODES[5:] and rng.random() < 0.3) else None
+            hist.append(R(vals, els, take=take, fin="close" if via else rng.choice(["close", "leak"]), mode=mode,
+                          sraise=sraise, nest=nest, rk=rk, via=via))
     # the same pipeline object run again: a later run copies the pipeline of an earlier one and is marked "reuse"
     for i in range(1, len(hist)):
         prev = [h for h in hist[:i] if h["op"] == hist[i]["op"] and h["op"] in ("run", "splitrun")]
         if prev and rng.random() < 0.35:
             p = rng.choice(prev)
+            if hist[i].get("via") or p.get("via"):
+                continue
             for f in ("els", "mode", "nest", "outer", "branch", "bufsize", "bare"):
                 if f in p:
                     hist[i][f] = [dict(e) for e in p[f]] if isinstance(p[f], list) and f != "nest" else p[f]
@@ -1266,7 +1486,8 @@ def _enumerated(quick):
         _family_s(range(0, 4) if quick else range(0, 6)),
         _family_x(),
         _family_e(range(0, 3) if quick else range(0, 5)),
-        _family_n())
+        _family_n(),
+        _family_k(), _family_l(quick), _family_p(), _family_v(), _family_g())
 
 
 def gen_cases(ctx):
@@ -1279,7 +1500,7 @@ def gen_cases(ctx):
     per = 1 if quick else 4
     made = 0
     for i, c in enumerate(_enumerated(quick)):
-        c["vk"] = _VKS[i % 4]
+        c["vk"] = _VKS[i % 5]
         for op in c["hist"]:            # pickle options rotate over the enumerated cases
             for e in op.get("els", []) + op.get("outer", []) + op.get("branch", []):
                 if e["k"] in ("cache", "tcache"):
